@@ -107,7 +107,9 @@ Lemma refund_expired_good s chain s' d : Good p toks s -> In chain (p_chains p) 
 Proof.
   intros HG Hch H. unfold refund_expired_chain in H. revert H.
   apply (fold_res_inv (fun st => Good p toks st /\ phi st d <= phi s d /\ st_pending st = st_pending s)).
-  - intros st e st' [Hst [Hle Hpn]] Hf. destruct (cancel_send st chain (s_id e) (s_sender e)) as [st2|?|?] eqn:Hc; try discriminate.
+  - intros st e st' [Hst [Hle Hpn]] Hf.
+    destruct (negb (fits256 _)); [inversion Hf; subst st'; split; [assumption | split; assumption]|].
+    destruct (cancel_send st chain (s_id e) (s_sender e)) as [st2|?|?] eqn:Hc; [| |inversion Hf; subst st'; split; [assumption | split; assumption]].
     + inversion Hf; subst st'.
       assert (Hk : In chain (KC st)) by (destruct Hst as [[_ Hp] _]; unfold KC; rewrite Hp; right; exact Hch).
       destruct (cancel_send_good st chain (s_id e) (s_sender e) st2 d Hst Hk Hc) as [G2 [P2 Q2]]. split; [exact G2 | split; [lia | congruence]].
